@@ -118,6 +118,11 @@ func (c *Conversation) End() (toSend []ValidMessage, err error) {
 		// Error can only happen when Rand reader is broken
 		toSend, _, err = c.createSerializedDataMessage(nil, messageFlagIgnoreUnreadable, []tlv{{tlvType: tlvTypeDisconnected}})
 	}
+	if previousMsgState != plainText {
+		// the last message of the session that ends here must not be sent again in a later one
+		c.resend.clear()
+		c.updateMayRetransmitTo(noRetransmit)
+	}
 	c.lastMessageStateChange = time.Time{}
 	c.ake.wipe(true)
 	c.ake = nil
